@@ -871,11 +871,14 @@ func (e *encoderCborBytes) kMapCanonical(ti *typeInfo, rv, rvv reflect.Value, ke
 
 		sideEncode(e.hh, &e.h.sideEncPool, func(se encoderI) {
 			se.ResetBytes(&mksv)
+
+			se.ciInherit(e.ci)
 			for i, k := range mks {
 				v := &mksbv[i]
 				l := len(mksv)
 				se.setContainerState(containerMapKey)
-				se.encodeR(baseRVRV(k))
+
+				se.encodeR(k)
 				se.atEndOfEncode()
 				se.writerEnd()
 				v.r = k
@@ -4964,11 +4967,14 @@ func (e *encoderCborIO) kMapCanonical(ti *typeInfo, rv, rvv reflect.Value, keyFn
 
 		sideEncode(e.hh, &e.h.sideEncPool, func(se encoderI) {
 			se.ResetBytes(&mksv)
+
+			se.ciInherit(e.ci)
 			for i, k := range mks {
 				v := &mksbv[i]
 				l := len(mksv)
 				se.setContainerState(containerMapKey)
-				se.encodeR(baseRVRV(k))
+
+				se.encodeR(k)
 				se.atEndOfEncode()
 				se.writerEnd()
 				v.r = k
